@@ -140,7 +140,7 @@ func (e *env[E, P, D, T]) shared(rounds int) {
 	c, A, N := e.c, e.A, e.N
 	rng := gen.New(c.Seed, "c10/shared/"+N)
 	for _, lg := range []int{7, 10, 12} {
-		if lg > e.k {
+		if _, isDead := e.deadLg.Load(lg); isDead || lg > e.k {
 			continue
 		}
 		n := 1 << lg
@@ -194,6 +194,14 @@ func (e *env[E, P, D, T]) shared(rounds int) {
 				j.d = dP
 			}
 			jobs = append(jobs, j)
+		}
+		// each job once with nbTasks=1 on this goroutine (attributable panics), then concurrently
+		for _, j := range jobs {
+			op, f := "FFT", e.in.FFT
+			if j.inv {
+				op, f = "FFTInverse", e.in.FFTInverse
+			}
+			e.one(op, f, j.d, j.pre, j.in, j.want, j.dit, j.coset, nbOpt{1, true}, lg, j.v, "default-shift", make([]E, n))
 		}
 		for r := 0; r < rounds; r++ {
 			var wg sync.WaitGroup
